@@ -162,16 +162,26 @@ def run(ctx):
         srcs = srcs[: (3 if q else 12)]
         syn = os.path.join(tmp, 'syn.wowsreplay'); battle.write_wows(syn, '13_2_0', random.Random(1)); srcs.append(syn)
         syn2 = os.path.join(tmp, 'syn.wotreplay'); battle.write_simple(syn2, 'wot', '1_10_0', random.Random(1)); srcs.append(syn2)
+        # an old-format battle whose unsigned bit-mask fields have every bit set (what one flipped top bit makes of them): the undamaged parse of
+        # THIS file must already terminate (run_worker below measures it under its limit)
+        wv = battle.wows_versions()
+        syn3 = os.path.join(tmp, 'syn-old.wowsreplay'); battle.write_wows(syn3, [v for v in wv if v.startswith('0_8_')][0], random.Random(2), extreme=True); srcs.append(syn3)
+        syn4 = os.path.join(tmp, 'syn-09.wowsreplay'); battle.write_wows(syn4, [v for v in wv if v.startswith('0_9_')][0], random.Random(2), extreme=True); srcs.append(syn4)
         n_per = 24 if q else 400
         worst = dict(wall=0, rss=0)
         for src in srcs:
             data = open(src, 'rb').read(); ext = src.rsplit('.', 1)[-1]
             base = run_worker(src, 120)
+            if base['outcome'].startswith(('HANG', 'CRASH')) or base['outcome'] in ('exception MemoryError', 'exception RecursionError'):
+                keep = os.path.join(common.VERIF, 'evidence', 'replays', 'C15-damaged-%d.%s' % (len(ctx.violations) + 1, src.rsplit('.', 1)[-1])); shutil.copy(src, keep)
+                ctx.violation(dict(kind='damaged-input', source=os.path.basename(src), where='(the source itself: a synthetic battle with every bit of its unsigned mask fields set)', corruption='none',
+                                   problem=base['outcome'], file=keep, wall_s=base['wall'], limit_s=120, how='python tools/c15_worker.py <file>'))
+                continue
             limit = max(20.0, base['wall'] * 10 + 10); rss_limit = max(base['maxrss_kb'] * 4, 600000)
             he = header_end(data)
             try: raw = fast_source(src)
             except Exception: raw = None
-            for i in range(n_per):
+            for i in range(8 if src in (syn3, syn4) else n_per):
                 where = ('header', 'cipher', 'stream', 'packet')[i % 4]
                 if where in ('stream', 'packet') and raw is None: where = 'cipher'
                 if where == 'header': kind, dmg = corrupt(rng, data, (0, he + 8))
@@ -220,6 +230,25 @@ def run(ctx):
                     ctx.violation(dict(kind='damaged-input', source=os.path.basename(src), where='size field of the %s packet header' % which, corruption='size=' + vk, problem=bad, file=keep,
                                        wall_s=r['wall'], limit_s=limit, how='python tools/c15_worker.py <file>  (ReplayParser(file, strict=False).get_info() in a fresh interpreter)'))
                     break
+        # container-level: the BLOCK COUNT tampered to a huge value while the file ends (or only empty blocks follow) behind the first block -
+        # two damages that only together keep every single read "successful"; time and memory must stay proportional to the ~150 bytes
+        data = open(syn, 'rb').read(); size0 = struct.unpack_from('<i', data, 8)[0]; first = data[:12 + size0]
+        for count in (2 ** 22 + 1, 2 ** 24 + 1, 0x7fffffff, 0x80000000, 0xffffffff):
+            for tail in (b'', bytes(4) * 3, bytes(4) * 3 + data[12 + size0:12 + size0 + 40]):
+                p = os.path.join(tmp, 'count.wowsreplay'); open(p, 'wb').write(first[:4] + struct.pack('<I', count) + first[8:] + tail)
+                r = run_worker(p, 20)
+                ctx.case(('block-count', count, len(tail))); ctx.count('where:block-count+cut'); ctx.count('outcome:' + r['outcome'].split(' ')[0])
+                bad = None
+                if r['outcome'].startswith(('HANG', 'CRASH')): bad = r['outcome']
+                elif r['outcome'] in ('exception MemoryError', 'exception RecursionError'): bad = r['outcome'] + ' (not an ordinary outcome for a damaged file)'
+                elif r['wall'] > 5 or r['maxrss_kb'] > 400000: bad = '%.1f s and %d kB peak resident size for a file of %d bytes' % (r['wall'], r['maxrss_kb'], len(first) + len(tail))
+                if bad:
+                    keep = os.path.join(common.VERIF, 'evidence', 'replays', 'C15-damaged-%d.wowsreplay' % (len(ctx.violations) + 1)); shutil.copy(p, keep)
+                    ctx.violation(dict(kind='damaged-input', source='synthetic battle', where='container: block count', corruption='count=%#x, file cut behind the first block (+%d bytes)' % (count, len(tail)),
+                                       problem=bad, file=keep, wall_s=r['wall'], limit_s=20, how='python tools/c15_worker.py <file>'))
+                    break
+            else: continue
+            break
         ctx.extra['worst_wall_s'] = worst['wall']; ctx.extra['worst_maxrss_kb'] = worst['rss']
         ctx.sample(dict(sources=[os.path.basename(s) for s in srcs], per_source=n_per))
     finally:
